@@ -20,7 +20,7 @@ func runC19(r *Run) {
 	r.rule("C19.R3", "revert containment in ApplyTransaction", 6)
 	r.rule("C19.R4", "refund of unused gas: always, at the effective price, fee collector -> sender", 6)
 	r.rule("C19.R5", "gas used = max(minimum rounded up, raw - refund), fixed afterwards", 6)
-	r.rule("C19.R6", "fee deduction in the ante handler, block gas limit, and the balance-versus-cost check in every execution mode", 8)
+	r.rule("C19.R6", "fee deduction in the ante handler, block gas limit, the balance-versus-cost check in every execution mode, and the unrounded minimum-gas-price threshold", 9)
 	r.rule("C19.R7", "tx-hash context value precedes EVM construction", 1)
 	r.rule("C19.R8", "the state-DB commit writes every touched account's balance to the bank: SetAccount calls SetBalance with the account's balance unconditionally and returns its error; SetBalance mints a positive and burns a negative difference", 3)
 	c19Balances(r)
@@ -553,6 +553,39 @@ func runC19(r *Run) {
 		})
 		r.check(okMin, "C19.R6", "mingasprice|every-mode", v.pos(v.Decl), "a tx priced below the global minimum gas price is rejected in every execution mode (block inclusion too)", "EthMinGasPriceDecorator does not reject fee < minGasPrice x gasLimit unconditionally (apart from a zero minimum): a proposer can include under-priced transactions")
 	}
+	if v := w.View("app/ante/evm", "EthMinGasPriceDecorator.AnteHandle"); v != nil {
+		// the threshold of the comparison is the exact product minimum price x gas limit: rounding it
+		// down to whole coins before comparing admits a price just below a fractional minimum
+		found, rounded := false, ""
+		ast.Inspect(v.Decl.Body, func(n ast.Node) bool {
+			ifs, ok := n.(*ast.IfStmt)
+			if !ok || !v.blockEndsInErrorReturn(ifs.Body) {
+				return true
+			}
+			recv, nm, args, isM := methodCall(ifs.Cond)
+			if !isM || len(args) != 1 {
+				return true
+			}
+			var required ast.Expr
+			switch nm {
+			case "LT", "LTE":
+				required = args[0]
+			case "GT", "GTE":
+				required = recv
+			default:
+				return true
+			}
+			if !v.derivesFromMinGasPrice(required, 0) {
+				return true
+			}
+			found = true
+			if at := v.roundsDownAt(required, 0); at != nil {
+				rounded = v.pos(at) + " " + exprString(at)
+			}
+			return true
+		})
+		r.check(found && rounded == "", "C19.R6", "mingasprice|threshold-not-rounded-down", v.pos(v.Decl), "the fee is compared with the exact product minimum gas price x gas limit (not with that product rounded down to whole coins)", "the rejection threshold derived from the minimum gas price is "+map[bool]string{true: "rounded down before the comparison at " + rounded + ": with a fractional minimum gas price a fee up to one base unit below minimum x gas limit is admitted", false: "not found as the bound of a rejecting LT/GT comparison"}[found])
+	}
 	if v := w.View("app/ante/evm", "EthAccountVerificationDecorator.AnteHandle"); v == nil {
 		r.bad("C19.R6", "anchor|accountverification", "-", "anchor", "not found")
 	} else {
@@ -722,4 +755,76 @@ func balanceOfSender(v *FnView, e ast.Expr) bool {
 		return true
 	})
 	return found
+}
+
+// derivesFromMinGasPrice: e (following local definitions) mentions the fee-market minimum gas price.
+func (v *FnView) derivesFromMinGasPrice(e ast.Expr, depth int) bool {
+	if depth > 4 {
+		return false
+	}
+	hit := false
+	ast.Inspect(e, func(n ast.Node) bool {
+		if hit {
+			return false
+		}
+		switch x := n.(type) {
+		case *ast.SelectorExpr:
+			if x.Sel.Name == "MinGasPrice" || x.Sel.Name == "GetMinGasPrice" {
+				hit = true
+			}
+		case *ast.Ident:
+			if o, ok := v.Info.ObjectOf(x).(*types.Var); ok && o.Pos() >= v.Decl.Pos() && o.Pos() <= v.Decl.End() {
+				for _, as := range v.assignmentsTo(o) {
+					for _, rhs := range as.Rhs {
+						if rhs.Pos() <= x.Pos() && x.End() <= rhs.End() {
+							continue
+						}
+						if v.derivesFromMinGasPrice(rhs, depth+1) {
+							hit = true
+						}
+					}
+				}
+			}
+		}
+		return !hit
+	})
+	return hit
+}
+
+// roundsDownAt: the first call inside e (following local definitions) that rounds a decimal down or to
+// the nearest integer (anything but Ceil loses part of the threshold).
+func (v *FnView) roundsDownAt(e ast.Expr, depth int) ast.Expr {
+	if depth > 4 {
+		return nil
+	}
+	var at ast.Expr
+	ast.Inspect(e, func(n ast.Node) bool {
+		if at != nil {
+			return false
+		}
+		switch x := n.(type) {
+		case *ast.CallExpr:
+			if _, nm, _, isM := methodCall(x); isM {
+				switch nm {
+				case "TruncateInt", "TruncateInt64", "TruncateDec", "RoundInt", "RoundInt64", "QuoTruncate", "QuoInt", "QuoInt64":
+					at = x
+				}
+			}
+		case *ast.Ident:
+			if o, ok := v.Info.ObjectOf(x).(*types.Var); ok && o.Pos() >= v.Decl.Pos() && o.Pos() <= v.Decl.End() {
+				for _, as := range v.assignmentsTo(o) {
+					for _, rhs := range as.Rhs {
+						if rhs.Pos() <= x.Pos() && x.End() <= rhs.End() {
+							continue
+						}
+						if a := v.roundsDownAt(rhs, depth+1); a != nil {
+							at = a
+						}
+					}
+				}
+			}
+		}
+		return at == nil
+	})
+	return at
 }
